@@ -166,11 +166,11 @@ def main(tier):
     prog = H.get_program()
     rng = H.rng(PROP)
     findings = H.load_known_findings(PROP)
-    ps = [1, 2] if tier == 'quick' else [1, 2, 3, 4, 5, 16]
+    ps = [1, 2, 3] if tier == 'quick' else [1, 2, 3, 4, 5, 16]
     tasks = []
     for p in ps:
         w = 3 * (p + 4)
-        nds = sorted(set([1, 2, 3, 4, w - 1, w, w + 1, w + 2, w + 4])) if tier == 'quick' else list(range(1, w + 6))
+        nds = sorted(set([1, 2, 3, 4, 5, w - 2, w - 1, w, w + 1, w + 2, w + 3, w + 4])) if tier == 'quick' else list(range(1, w + 6))
         for nd in nds:
             for scale in (range(-3, 4) if tier == 'quick' else range(-8, 9)):
                 for mode in MODES:
